@@ -521,10 +521,11 @@ Section ReadsBack.
   (* the store holds the ground trie [F] under root hash [root] *)
   Definition store_ok (S : store) (root : list N) (F : node) : Prop :=
     gok F /\
+    exactb H (resolve_of H PathScheme S) true [] F /\
     match F with
     | NEmpty => root = H empty_root_preimage
     | _ => exists e, node_enc H F = Some e /\ root = H e /\
-                     covered H (resolve_of H PathScheme S) true [] F
+                     cov0 H (resolve_of H PathScheme S) true [] F
     end.
 
   Lemma gsub_pwf f p G q Gq : gsub H f p G q Gq -> pwf G -> pwf Gq.
@@ -586,18 +587,20 @@ Section ReadsBack.
 
   (* committing leaves a store that holds the ground trie under the returned root *)
   Theorem commit_store_ok S ss F r ons :
-    sinv S ss F -> commit H ss = Some (r, ons) -> store_ok (applied S ons) r F.
+    sinv S ss F -> commit H ss = Some (r, ons) ->
+    exactb H (resolve_of H PathScheme (applied S ons)) true [] F ->
+    store_ok (applied S ons) r F.
   Proof.
-    intros SI C. pose proof SI as [GO Rp]. split; [exact GO|].
+    intros SI C XB. pose proof SI as [GO Rp]. split; [exact GO|]. split; [exact XB|].
     destruct (root_cases ss F S SI) as [[RT ->]|(SF & Cn & W)].
     - unfold commit in C. rewrite RT in C. destruct (deleted_nodes (s_tr ss)); inversion C; reflexivity.
     - destruct (pwf_enc_total H H_len F W) as [e E].
       assert (GS : gsub H true [] F [] F) by (apply (gsub_here H true [] F e SF E); reflexivity).
-      assert (G : r = H e /\ covered H (resolve_of H PathScheme (applied S ons)) true [] F).
+      assert (G : r = H e /\ cov0 H (resolve_of H PathScheme (applied S ons)) true [] F).
       { assert (HR : hash_root H (s_root ss) = Some (H e)) by (eapply rep_hash_root; eassumption).
         assert (FIN : forall ns1 h', commit_node H commit_fuel (dirty_at ss) (s_tr ss) true []
                                   (s_root ss) (add_deletions (s_tr ss) []) = Some (NHash h', ns1) ->
-                      covered H (resolve_of H PathScheme (apply_nodeset PathScheme ns1 S)) true [] F).
+                      cov0 H (resolve_of H PathScheme (apply_nodeset PathScheme ns1 S)) true [] F).
         { intros ns1 h' CN.
           pose proof (commit_node_sorted H _ _ _ _ _ _ _ _ _ CN (add_deletions_sorted _ _ (sorted_nil))) as SO.
           apply (commit_node_post H H_len S) with (G := F) in CN;
@@ -615,13 +618,13 @@ Section ReadsBack.
         - destruct (negb (dirty_at ss [])) eqn:DR.
           + inversion C; subst. split; [reflexivity|]. cbn [applied].
             apply negb_true_iff in DR. inversion Rp; subst.
-            match goal with CO : clean_ok _ _ _ _ _ _ _ |- _ => destruct (CO DR) as [_ X]; exact X end.
+            match goal with CO : clean_ok _ _ _ _ _ _ _ |- _ => destruct (CO DR) as [_ X]; exact (proj1 X) end.
           + dmatch C; [|discriminate]. destruct p as [[| | | |h'] ns1]; try discriminate.
             inversion C; subst. split; [reflexivity|]. cbn [applied]. eapply FIN; reflexivity.
         - destruct (negb (dirty_at ss [])) eqn:DR.
           + inversion C; subst. split; [reflexivity|]. cbn [applied].
             apply negb_true_iff in DR. inversion Rp; subst.
-            match goal with CO : clean_ok _ _ _ _ _ _ _ |- _ => destruct (CO DR) as [_ X]; exact X end.
+            match goal with CO : clean_ok _ _ _ _ _ _ _ |- _ => destruct (CO DR) as [_ X]; exact (proj1 X) end.
           + dmatch C; [|discriminate]. destruct p as [[| | | |h'] ns1]; try discriminate.
             inversion C; subst. split; [reflexivity|]. cbn [applied]. eapply FIN; reflexivity.
         - cbn [negb] in C.
@@ -634,18 +637,19 @@ Section ReadsBack.
   Theorem open_sinv S root F :
     store_ok S root F -> exists ss, open_trie H PathScheme S root = TOk ss /\ sinv S ss F.
   Proof.
-    intros [GO SO]. unfold open_trie.
+    intros (GO & XB & SO). unfold open_trie.
     destruct GO as [->|[Cn W]].
     - subst root. rewrite beqb_refl. eexists. split; [reflexivity|].
       split; [left; reflexivity|constructor].
     - assert (SF : is_sf F = true) by (destruct (pwf_shape F W) as [(k & c & ->)|(cs & ->)]; reflexivity).
       assert (X : exists e, node_enc H F = Some e /\ root = H e /\
-                            covered H (resolve_of H PathScheme S) true [] F)
+                            cov0 H (resolve_of H PathScheme S) true [] F)
         by (destruct F; try discriminate; exact SO).
-      destruct X as (e & E & -> & C).
+      destruct X as (e & E & -> & C0).
+      assert (C : covered H (resolve_of H PathScheme S) true [] F) by (split; assumption).
       rewrite beqb_neq.
       2: { intro X. apply H_inj_empty in X. eapply enc_not_empty_root; eassumption. }
-      destruct (C [] F (gsub_here H true [] F e SF E eq_refl)) as (e' & E' & RS).
+      destruct (C0 [] F (gsub_here H true [] F e SF E eq_refl)) as (e' & E' & RS).
       rewrite E in E'. inversion E'; subst e'. rewrite RS.
       eexists. split; [reflexivity|]. split; [right; split; assumption|]. cbn [s_root].
       apply rep_collapse; [exact H_len|exact W|exact C|].
@@ -670,7 +674,9 @@ Section ReadsBack.
      same value there as in the in-memory trie before the commit — the pure
      lookup of the ground trie *)
   Theorem commit_reads_back_sinv S ss F r ons key :
-    sinv S ss F -> commit H ss = Some (r, ons) -> forallb byteb key = true ->
+    sinv S ss F -> commit H ss = Some (r, ons) ->
+    exactb H (resolve_of H PathScheme (applied S ons)) true [] F ->
+    forallb byteb key = true ->
     exists ss2,
       open_trie H PathScheme (applied S ons) r = TOk ss2 /\
       exists v t1 d1 ev1 t2 d2 ev2,
@@ -678,8 +684,8 @@ Section ReadsBack.
         trie_get (resolve_of H PathScheme (applied S ons)) (s_root ss2) key = TOk (v, t2, d2, ev2) /\
         v = lk F (keybytes_to_hex key).
   Proof.
-    intros SI C BK.
-    destruct (open_sinv _ _ _ (commit_store_ok S ss F r ons SI C)) as (ss2 & O & SI2).
+    intros SI C XB BK.
+    destruct (open_sinv _ _ _ (commit_store_ok S ss F r ons SI C XB)) as (ss2 & O & SI2).
     exists ss2. split; [exact O|].
     destruct (sess_get_lk S ss F key SI BK) as (t1 & d1 & ev1 & G1).
     destruct (sess_get_lk _ ss2 F key SI2 BK) as (t2 & d2 & ev2 & G2).
